@@ -350,7 +350,28 @@ def make_case(op, args, nots=None):
                 raise BadAnswer(ans)
             return frozenset(int(x) for x in ans.split()[1:])
         return Case(op, args, lambda drop: frozenset(G.ref_metavars(E(p, drop))), post, 'metavars', PC.has_kind(p, 'I'), (p,))
-    if op in ('I', 'BI'):
+    if op in ('MP', 'MPS', 'MPX'):
+        l, rr = r.term(), r.term()
+
+        def spec(drop):
+            e = E(l, drop)
+            if e[0] == 'i' and e[1] == E(rr, drop):
+                return e[2]
+            return 'RAISE'
+        return Case(op, args, spec, lambda ans, drop: 'RAISE' if ans == 'RAISE' else E(_term(ans), drop),
+                    'modus-ponens', True, (l, rr))
+    if op in ('GEN', 'GENS'):
+        c = r.term()
+        x = r.int()
+
+        def spec(drop):
+            e = E(c, drop)
+            if e[0] == 'i' and G.ref_fresh(e[2], x):
+                return ('i', ('x', x, e[1]), e[2])
+            return 'RAISE'
+        return Case(op, args, spec, lambda ans, drop: 'RAISE' if ans == 'RAISE' else E(_term(ans), drop),
+                    'generalization', True, (c,))
+    if op in ('I', 'BI', 'BIS'):
         p = r.term()
         d = r.delta()
         return Case(op, args, lambda drop: G.ref_inst(E(p, drop), {k: E(v, drop) for k, v in d}, drop),
@@ -480,3 +501,12 @@ def check_cases(R, sides, cases, cfg, cid, sigfun=None, kindfun=None):
                         dict(op=c.op, args=c.args, implementation=i, expected=repr(c.spec(drop))[:2000],
                              got=repr(got)[:2000], drop_semantics=drop))
     return mismatches, failing
+
+
+def proof_stage(R):
+    """R.proof_stage() with the discharged count corrected when the build failed (a stale Props/Cxx.vo from an
+    earlier successful build must not be counted)"""
+    P = R.proof_stage()
+    if not P['ok']:
+        P['discharged'] = max(0, min(P['discharged'], P['obligations']) - len(P['theorems']))
+    return P
